@@ -8,7 +8,7 @@ entry and exit points, completion rows (acyclic by construction).  spec.normaliz
 import random
 import zlib
 
-PROFILES = ("struct", "hist", "pseudo", "compl")
+PROFILES = ("struct", "hist", "pseudo", "compl", "evh", "dfb", "dfm")
 
 
 def rand_spec(profile, seed):
@@ -17,6 +17,11 @@ def rand_spec(profile, seed):
     name = "rand_%s_%d" % (profile, seed)
     nev = rnd.randint(3, 5)
     events = ["E%d" % i for i in range(nev)]
+    if profile == "evh":
+        # an event class hierarchy of 1-2 levels below E0 (and sometimes one below E1); triggers: exact, base, Kleene
+        events = ["E0", "E1", "E2", "E3:E0", "E4:E3"] if rnd.random() < 0.6 else ["E0", "E1", "E2", "E3:E0", "E4:E1"]
+        nev = 5
+    trig = [e.split(":")[0] for e in events]
     leaf = [0]
     act = [0]
     st = [0]
@@ -76,6 +81,8 @@ def rand_spec(profile, seed):
 
     for mi in range(len(shape)):
         nreg = rnd.choice([1, 1, 2, 2, 3]) if shape[mi] < 2 else rnd.choice([1, 1, 2])
+        if profile == "dfb" and mi == 0:
+            nreg = 1            # back: no sibling region may handle what a state defers (documented limitation)
         regions = [[sname() for _ in range(rnd.randint(2, 4))] for _ in range(nreg)]
         M = {"name": "M%d" % mi, "regions": regions, "kinds": {}, "rows": [], "state": {}}
         machines.append(M)
@@ -104,7 +111,7 @@ def rand_spec(profile, seed):
             ep = sname()
             M["regions"][0].append(ep)
             M["kinds"][ep] = "entry_pt"
-            entry_pts[0] = (ep, rnd.choice(events[:nev]))     # the event that enters through it is the one its row reacts to
+            entry_pts[0] = (ep, rnd.choice(trig[:nev]))     # the event that enters through it is the one its row reacts to
             xp = sname()
             M["regions"][-1].append(xp)
             xev = "X%d" % mi
@@ -113,7 +120,7 @@ def rand_spec(profile, seed):
             exit_pts[len(M["regions"]) - 1] = (xp, xev)
         M["_explicit"], M["_entry_pts"], M["_exit_pts"] = explicit, entry_pts, exit_pts
         if profile in ("hist", "pseudo") and shape[mi] > 0:
-            M["history"] = rnd.choice(["none", "always", "shallow:" + ",".join(rnd.sample(events[:nev], rnd.randint(1, 2)))])
+            M["history"] = rnd.choice(["none", "always", "shallow:" + ",".join(rnd.sample(trig[:nev], rnd.randint(1, 2)))])
     for mi, M in enumerate(machines):
         pool = pools[mi]
         nrows = rnd.randint(6, 12)
@@ -121,7 +128,9 @@ def rand_spec(profile, seed):
             normal = [s for s in reg if M["kinds"].get(s, "") not in ("entry_pt",) and not M["kinds"].get(s, "").startswith("exit_pt")]
             for _ in range(max(2, nrows // len(M["regions"]))):
                 src = rnd.choice(normal)
-                ev = rnd.choice(events[:nev])
+                ev = rnd.choice(trig[:nev])
+                if profile == "evh" and rnd.random() < 0.12:
+                    ev = "*"
                 if rnd.random() < 0.22:
                     M["rows"].append("%s + %s%s%s" % (src, ev, guard(pool), actions() or " / " + new_act()))
                 else:
@@ -129,9 +138,9 @@ def rand_spec(profile, seed):
                     M["rows"].append("%s + %s%s%s -> %s" % (src, ev, guard(pool), actions(), tgt))
             # every pseudo state takes part in the table of its machine (documented usage)
             if ri in M["_exit_pts"] and not any(r.endswith("-> " + M["_exit_pts"][ri][0]) for r in M["rows"]):
-                M["rows"].append("%s + %s%s%s -> %s" % (rnd.choice(normal), rnd.choice(events[:nev]), guard(pool), actions(), M["_exit_pts"][ri][0]))
+                M["rows"].append("%s + %s%s%s -> %s" % (rnd.choice(normal), rnd.choice(trig[:nev]), guard(pool), actions(), M["_exit_pts"][ri][0]))
             if ri in M["_explicit"] and not any(r.startswith(M["_explicit"][ri] + " ") for r in M["rows"]):
-                M["rows"].append("%s + %s%s -> %s" % (M["_explicit"][ri], rnd.choice(events[:nev]), actions(), rnd.choice(normal)))
+                M["rows"].append("%s + %s%s -> %s" % (M["_explicit"][ri], rnd.choice(trig[:nev]), actions(), rnd.choice(normal)))
             if ri in M["_entry_pts"]:
                 ep, epev = M["_entry_pts"][ri]
                 M["rows"].append("%s + %s%s%s -> %s" % (ep, epev, guard(pool), actions(), rnd.choice(normal)))
@@ -145,24 +154,24 @@ def rand_spec(profile, seed):
             if others:
                 if M["_explicit"]:
                     regs = sorted(M["_explicit"])
-                    P["rows"].append("%s + %s%s -> %s.%s" % (rnd.choice(others), rnd.choice(events[:nev]), actions(), substate, M["_explicit"][regs[0]]))
+                    P["rows"].append("%s + %s%s -> %s.%s" % (rnd.choice(others), rnd.choice(trig[:nev]), actions(), substate, M["_explicit"][regs[0]]))
                     if len(regs) > 1:
                         tg = "|".join("%s.%s" % (substate, M["_explicit"][r]) for r in regs)
-                        P["rows"].append("%s + %s%s -> %s" % (rnd.choice(others), rnd.choice(events[:nev]), actions(), tg))
+                        P["rows"].append("%s + %s%s -> %s" % (rnd.choice(others), rnd.choice(trig[:nev]), actions(), tg))
                 for ri, (ep, epev) in M["_entry_pts"].items():
                     P["rows"].append("%s + %s%s%s -> %s.%s" % (rnd.choice(others), epev, guard(ppool), actions(), substate, ep))
                 for ri, (xp, xev) in M["_exit_pts"].items():
                     P["rows"].append("%s.%s + %s%s -> %s" % (substate, xp, xev, actions(), rnd.choice(others)))
                 # make sure the sub-machine can be entered and left
-                P["rows"].append("%s + %s%s -> %s" % (rnd.choice(others), rnd.choice(events[:nev]), actions(), substate))
-                P["rows"].append("%s + %s%s%s -> %s" % (substate, rnd.choice(events[:nev]), guard(ppool), actions(), rnd.choice(others)))
+                P["rows"].append("%s + %s%s -> %s" % (rnd.choice(others), rnd.choice(trig[:nev]), actions(), substate))
+                P["rows"].append("%s + %s%s%s -> %s" % (substate, rnd.choice(trig[:nev]), guard(ppool), actions(), rnd.choice(others)))
         # sm-internal and state-local internal tables
         if rnd.random() < 0.5:
-            M["internal"] = ["%s%s / %s" % (rnd.choice(events[:nev]), guard(pool), new_act()) for _ in range(rnd.randint(1, 2))]
+            M["internal"] = ["%s%s / %s" % (rnd.choice(trig[:nev]), guard(pool), new_act()) for _ in range(rnd.randint(1, 2))]
         for reg in M["regions"]:
             for s in reg:
                 if s not in M["kinds"] and rnd.random() < 0.2:
-                    M["state"].setdefault(s, {})["internal"] = ["%s%s / %s" % (rnd.choice(events[:nev]), guard(pool), new_act())]
+                    M["state"].setdefault(s, {})["internal"] = ["%s%s / %s" % (rnd.choice(trig[:nev]), guard(pool), new_act())]
         if profile == "compl":
             # completion rows only "forward" in the region's state order: chains terminate
             # the guard leaves of a completion row belong to its source state (the value is latched on entry of that state)
@@ -181,6 +190,45 @@ def rand_spec(profile, seed):
                                 g = " [%s]" % cg        # a single positive leaf: its latched value is the guard's value
                             M["rows"].append("%s%s%s -> %s" % (s, g, actions(), tgt))
         rnd.shuffle(M["rows"])
+    # deferral as a state property
+    if profile in ("dfb", "dfm"):
+        dset = rnd.sample(trig[:nev], rnd.randint(1, 2))
+        cond = [0]
+        for mi, M in enumerate(machines):
+            if profile == "dfb" and mi != 0:
+                continue        # back: deferral declared in the machine that receives the event
+            simple = [s_ for reg in M["regions"] for s_ in reg if not M["kinds"].get(s_)]
+            subs = [s_ for reg in M["regions"] for s_ in reg if M["kinds"].get(s_, "").startswith("sub:")]
+            cands = simple + (subs if profile == "dfm" else [])
+            for s_ in cands:
+                if rnd.random() < (0.45 if mi == 0 else 0.25):
+                    evs = [e for e in dset if rnd.random() < 0.7] or [dset[0]]
+                    M["state"].setdefault(s_, {})["deferred"] = evs
+                    if profile == "dfm" and rnd.random() < 0.35 and cond[0] < 4:
+                        M["state"][s_]["cond_defer"] = cond[0]
+                        cond[0] += 1
+                    if profile == "dfb":
+                        # ... and not contradicted by a transition on the same event in the same state
+                        M["rows"] = [r for r in M["rows"] if not any(r.startswith("%s + %s " % (s_, e)) or r == "%s + %s" % (s_, e) for e in evs)]
+                        if s_ in M["state"] and "internal" in M["state"][s_]:
+                            M["state"][s_]["internal"] = [r for r in M["state"][s_]["internal"] if r.split()[0] not in evs]
+                            if not M["state"][s_]["internal"]:
+                                del M["state"][s_]["internal"]
+            if profile == "dfb" and M.get("internal"):
+                M["internal"] = [r for r in M["internal"] if r.split()[0] not in dset]
+                if not M["internal"]:
+                    del M["internal"]
+    # user flags (pure observation): on simple states and on sub-machine states, at every level
+    if rnd.random() < 0.6:
+        for M in machines:
+            for reg in M["regions"]:
+                for s_ in reg:
+                    k = M["kinds"].get(s_, "")
+                    if k and not k.startswith("sub:") and k != "explicit":
+                        continue
+                    fl = [f for f in ("F0", "F1", "F2") if rnd.random() < 0.25]
+                    if fl:
+                        M["state"].setdefault(s_, {})["flags"] = fl
     for M in machines:
         for k in ("_explicit", "_entry_pts", "_exit_pts"):
             M.pop(k, None)
@@ -195,6 +243,10 @@ def variants(spec):
     """configurations a random spec is built for (back11 cannot compile sm-internal tables; back with favor_compile_time
     cannot compile a machine that has both completion rows and an sm-internal table: compile-time limits, not properties)"""
     v = ["B", "BC", "M", "MA", "MC"]
+    if any(":" in e for e in spec["events"] if isinstance(e, str)):
+        return ["B", "M"]
+    if any("cond_defer" in st for M in spec["machines"] for st in M.get("state", {}).values()) or spec["name"].startswith("rand_dfm"):
+        return ["M", "MA", "MC"]    # deferral at any level / conditional deferral: backmp11       # base-class and Kleene triggers: run-time-speed policies with flat_fold dispatch (C18 quantifier)
     for M in spec["machines"]:
         has_compl = any(" + " not in r.split("->")[0].split("[")[0].split("/")[0] for r in M["rows"])
         if has_compl and M.get("internal"):
